@@ -65,6 +65,9 @@ pub enum Api {
     Slice,
     /// As `Slice`, then `from_str` (JSON, RON; falls back to `Slice` for MessagePack).
     Str,
+    /// Like `Reader` for by-value deserialization; callers additionally run
+    /// `Deserialize::deserialize_in_place` over an existing value (see `diff::diff_in_place`).
+    InPlace,
     /// JSON only: parse into `serde_json::Value` first, then `from_value` (a deserializer that
     /// can never lend borrowed data); other formats fall back to `Slice`.
     Value,
@@ -73,10 +76,10 @@ pub enum Api {
 /// Deserialize one `T` from the simulated reader.
 pub fn de<T: DeserializeOwned>(fmt: Format, api: Api, r: &mut SimReader) -> Result<T, String> {
     match (fmt, api) {
-        (Format::Json | Format::JsonPretty, Api::Reader) => serde_json::from_reader(&mut *r).map_err(|e| e.to_string()),
-        (Format::Ron | Format::RonNamed, Api::Reader) => ron::de::from_reader(&mut *r).map_err(|e| e.to_string()),
-        (Format::RonExt, Api::Reader) => ron_ext().from_reader(&mut *r).map_err(|e| e.to_string()),
-        (Format::Msgpack | Format::MsgpackNamed, Api::Reader) => rmp_serde::from_read(&mut *r).map_err(|e| e.to_string()),
+        (Format::Json | Format::JsonPretty, Api::Reader | Api::InPlace) => serde_json::from_reader(&mut *r).map_err(|e| e.to_string()),
+        (Format::Ron | Format::RonNamed, Api::Reader | Api::InPlace) => ron::de::from_reader(&mut *r).map_err(|e| e.to_string()),
+        (Format::RonExt, Api::Reader | Api::InPlace) => ron_ext().from_reader(&mut *r).map_err(|e| e.to_string()),
+        (Format::Msgpack | Format::MsgpackNamed, Api::Reader | Api::InPlace) => rmp_serde::from_read(&mut *r).map_err(|e| e.to_string()),
         (_, _) => {
             let bytes = r.slurp().map_err(|e| format!("io: {e}"))?;
             de_bytes(fmt, api, &bytes)
@@ -84,8 +87,62 @@ pub fn de<T: DeserializeOwned>(fmt: Format, api: Api, r: &mut SimReader) -> Resu
     }
 }
 
+/// `Deserialize::deserialize_in_place` over an existing value, reading from the simulated reader.
+pub fn de_in_place<T: DeserializeOwned>(fmt: Format, r: &mut SimReader, place: &mut T) -> Result<(), String> {
+    match fmt.base() {
+        Format::Json => {
+            let mut de = serde_json::Deserializer::from_reader(&mut *r);
+            T::deserialize_in_place(&mut de, place).map_err(|e| e.to_string())?;
+            de.end().map_err(|e| e.to_string())
+        }
+        Format::Ron => {
+            let bytes = r.slurp().map_err(|e| format!("io: {e}"))?;
+            let mut de = if fmt == Format::RonExt {
+                ron::de::Deserializer::from_bytes_with_options(&bytes, ron_ext()).map_err(|e| e.to_string())?
+            } else {
+                ron::de::Deserializer::from_bytes(&bytes).map_err(|e| e.to_string())?
+            };
+            T::deserialize_in_place(&mut de, place).map_err(|e| e.to_string())?;
+            de.end().map_err(|e| e.to_string())
+        }
+        _ => {
+            let mut de = rmp_serde::Deserializer::new(&mut *r);
+            T::deserialize_in_place(&mut de, place).map_err(|e| e.to_string())
+        }
+    }
+}
+
+/// By-value deserialization through exactly the deserializer construction and read pattern of
+/// `de_in_place` (so that an injected I/O fault lands at the same call for both).
+pub fn de_like_in_place<T: DeserializeOwned>(fmt: Format, r: &mut SimReader) -> Result<T, String> {
+    match fmt.base() {
+        Format::Json => {
+            let mut de = serde_json::Deserializer::from_reader(&mut *r);
+            let v = T::deserialize(&mut de).map_err(|e| e.to_string())?;
+            de.end().map_err(|e| e.to_string())?;
+            Ok(v)
+        }
+        Format::Ron => {
+            let bytes = r.slurp().map_err(|e| format!("io: {e}"))?;
+            let mut de = if fmt == Format::RonExt {
+                ron::de::Deserializer::from_bytes_with_options(&bytes, ron_ext()).map_err(|e| e.to_string())?
+            } else {
+                ron::de::Deserializer::from_bytes(&bytes).map_err(|e| e.to_string())?
+            };
+            let v = T::deserialize(&mut de).map_err(|e| e.to_string())?;
+            de.end().map_err(|e| e.to_string())?;
+            Ok(v)
+        }
+        _ => {
+            let mut de = rmp_serde::Deserializer::new(&mut *r);
+            T::deserialize(&mut de).map_err(|e| e.to_string())
+        }
+    }
+}
+
 pub fn de_bytes<T: DeserializeOwned>(fmt: Format, api: Api, bytes: &[u8]) -> Result<T, String> {
     match (fmt, api) {
+        (_, Api::InPlace) => de_bytes(fmt, Api::Slice, bytes),
         (Format::Json | Format::JsonPretty, Api::Value) => {
             let v: serde_json::Value = serde_json::from_slice(bytes).map_err(|e| e.to_string())?;
             serde_json::from_value(v).map_err(|e| e.to_string())
